@@ -689,8 +689,21 @@ func (pe *PolicyEngine) GetRepresentativePeersList() []Peer {
 // getDisjointIPBlocks returns a slice of disjoint ip-blocks from all netpols resources
 func (pe *PolicyEngine) getDisjointIPBlocks() ([]*netset.IPBlock, error) {
 	var ipbList []*netset.IPBlock
-	for _, nsMap := range pe.netpolsMap {
-		for _, policy := range nsMap {
+	// visited in the order of namespace and name, so that the policy an error is reported for does not depend on map order
+	nsNames := make([]string, 0, len(pe.netpolsMap))
+	for nsName := range pe.netpolsMap {
+		nsNames = append(nsNames, nsName)
+	}
+	sort.Strings(nsNames)
+	for _, nsName := range nsNames {
+		nsMap := pe.netpolsMap[nsName]
+		policiesNames := make([]string, 0, len(nsMap))
+		for name := range nsMap {
+			policiesNames = append(policiesNames, name)
+		}
+		sort.Strings(policiesNames)
+		for _, name := range policiesNames {
+			policy := nsMap[name]
 			policyIPBlocksList, err := policy.GetReferencedIPBlocks()
 			if err != nil {
 				return nil, err
